@@ -10,7 +10,7 @@
 From Coq Require Import ZArith List Bool Lia String.
 Import ListNotations.
 From DDP Require Import Lang.Syntax Lang.F64 Lang.RefSem Lang.Prec Lang.PrecProofs Lang.OpsCover Gen.Operators
-  Lower.Ops Lower.OpsProofs Lower.ListEq Lower.ForLoop Lower.Control Lower.ControlRules.
+  Lower.Ops Lower.OpsProofs Lower.ListEq Lower.ForLoop Lower.Control Lower.ControlRules Lower.ExprCompile Lower.StmtCompile.
 Open Scope Z_scope.
 
 (* (a) precedence and associativity as written: the ladder parser inverts the minimal-parentheses renderer
@@ -304,3 +304,57 @@ Proof.
   - apply refsem_repeat_rule.
 Qed.
 Print Assumptions C01_refsem_control_rules.
+
+(* ---- DESIGN stage 4 (start): composition into compiler models --------------------------------------------- *)
+
+(* Expressions.  For EVERY expression tree of the scalar fragment (typeof G e = Some t: literals, scalar variables,
+   all scalar unary/binary/ternary operators incl. und/oder/falls, conversions), every environment whose variables
+   hold well-formed values of their declared types, and every fuel that covers the depth of the tree: RefSem.eval
+   yields a well-formed value of type t and the compiled instruction tree evaluates to its machine representation,
+   or both sides raise a Laufzeitfehler (modulo 0); RefSem never gets stuck, never runs out of fuel, and leaves the
+   state unchanged.  (agree False ...: see ExprCompile.agree.) *)
+Theorem C01_expr_preservation :
+  forall (pow : Z -> Z -> Z) (log10 : Z -> Z) (fmt_float : Z -> list Z) (ftab : list fdecl)
+         (G : tenv) (genv en : env) (s : state) (ld : ident -> option mval) (e : expr) (t : ty),
+    env_ok G en s ld ->
+    typeof G e = Some t ->
+    forall fuel, (depth e <= fuel)%nat ->
+    agree False t s (eval pow log10 fmt_float ftab fuel genv en s e) (lir_eval pow log10 ld (compile_expr e)).
+Proof. exact expr_preservation. Qed.
+Print Assumptions C01_expr_preservation.
+
+(* 7 modulo (3 minus 3) in a closed environment: both sides a Laufzeitfehler; (200 als Byte) durch 2,0 : 100 *)
+Example C01_expr_nonvacuous :
+  typeof (fun _ => None) (EBin BMod (EInt 7) (EBin BMinus (EInt 3) (EInt 3))) = Some TZahl /\
+  lir_eval (fun _ _ => 0) (fun _ => 0) (fun _ => None) (compile_expr (EBin BMod (EInt 7) (EBin BMinus (EInt 3) (EInt 3)))) = MErr /\
+  lir_eval (fun _ _ => 0) (fun _ => 0) (fun _ => None)
+           (compile_expr (EBin BOr (EBool true) (EBin BEq (EBin BMod (EInt 7) (EInt 0)) (EInt 1)))) = MOk (MI1 true).
+Proof. repeat split; vm_compute; reflexivity. Qed.
+
+(* Statements.  For every fuel and every block of the scalar statement fragment (block_ok: scalar declarations and
+   assignments with implicit numeric conversion, Wenn, Solange, Mache..Solange, Wiederhole, break/continue, blocks,
+   expression statements, Schreibe of scalars): whenever RefSem ends (normally or with a Laufzeitfehler) within the
+   fuel, the compiled block run with the same fuel ends the same way with the same output bytes.
+   NOT covered (the full `program_preservation : wt p -> run (compile p) = exec p` stays open): counting loops and
+   for-each inside this simulation (missing lemma: composing ForLoop.for_lowering_correct /
+   Control.foreach_lowering_correct with the store relation - their hidden index/cursor is not a store cell),
+   functions and Gib, Text and lists, and the step from these structured instruction trees to basic blocks beyond
+   the construct-level theorems above. *)
+Theorem C01_program_preservation_scalar :
+  forall (pow : Z -> Z -> Z) (log10 : Z -> Z) (fmt_float : Z -> list Z) (ftab : list fdecl)
+         (fuel : nat) (ss : list stmt) (o : bool * list Z),
+    block_ok (fun _ => None) false ss = true ->
+    observe (exec_block pow log10 fmt_float ftab fuel [] [] init_state ss) = Some o ->
+    m_observe (mblock pow log10 fmt_float fuel [] init_mstate (map compile_stmt ss)) = Some o.
+Proof. exact program_preservation_scalar. Qed.
+Print Assumptions C01_program_preservation_scalar.
+
+(* Die Zahl x1 ist 0. Solange x1 kleiner als 3 ist, mache: Schreibe x1. Speichere x1 plus 1 in x1.  -> "012" *)
+Example C01_program_nonvacuous :
+  let p := [SDecl TZahl 1%N (EInt 0);
+            SWhile (EBin BLt (EVar 1%N) (EInt 3))
+                   [SPrint (EVar 1%N); SAssign (LVar 1%N) (EBin BPlus (EVar 1%N) (EInt 1))]] in
+  block_ok (fun _ => None) false p = true /\
+  observe (exec_block (fun _ _ => 0) (fun _ => 0) (fun _ => []) [] 40 [] [] init_state p) = Some (false, [48; 49; 50]) /\
+  m_observe (mblock (fun _ _ => 0) (fun _ => 0) (fun _ => []) 40 [] init_mstate (map compile_stmt p)) = Some (false, [48; 49; 50]).
+Proof. repeat split; vm_compute; reflexivity. Qed.
